@@ -102,4 +102,61 @@ def faceCentroid (simps : List (Tri α)) : V3 α :=
   let num := V3.sum (simps.map fun t => V3.smul (triArea t) (V3.sdiv (t.a + t.b + t.c) (lit 3)))
   V3.sdiv num (Scalar.sum (simps.map triArea))
 
+/-! ### what the object reads from its caches
+
+`inertia_tensor` → `_compute_inertia_tensor` does not recompute the simplex normals: it reads
+`self._simplex_equations[:, :3]`, an array filled by `_find_simplex_equations` at construction, by
+`centroid.setter` and by `diagonalize_inertia`, and left alone by `_rescale`. -/
+
+/-- `_compute_inertia_tensor(centered=True)` with the unit normals `N` as the code has them (the cached
+    `_simplex_equations[:, :3]`, one row per simplex) and the triangles of the current vertices. -/
+def inertiaCentredWith (S : List (Tri α)) (N : List (V3 α)) (c : V3 α) : M3 α :=
+  let data := List.zipWith (fun t n =>
+    let tc := t.map (· - c)
+    (n, triArea tc * lit 2, tc)) S N
+  let inn (s0 s1 : Nat) : α :=
+    Scalar.sum (data.map fun d => innTerm d.1 d.2.1 d.2.2 s0 s1) / lit 6
+  let inm (s0 s1 : Nat) : α :=
+    -(Scalar.sum (data.map fun d => inmTerm d.1 d.2.1 d.2.2 s0 s1)) / lit 8
+  let ixx := inn 1 2
+  let ixy := inm 0 1
+  let ixz := inm 0 2
+  let iyy := inn 0 2
+  let iyz := inm 1 2
+  let izz := inn 0 1
+  ⟨ixx, ixy, ixz, ixy, iyy, iyz, ixz, iyz, izz⟩
+
+/-- `inertia_tensor` from the cached normals, centroid and volume -/
+def inertiaWith (S : List (Tri α)) (N : List (V3 α)) (c : V3 α) (vol : α) : M3 α :=
+  translateInertia c (inertiaCentredWith S N c) vol
+
+/-! ### `_combine_simplices`: grouping of Qhull's simplices into faces
+
+`eqs` are Qhull's `hull.equations` (one `(normal, offset)` row per simplex; an INPUT of the model),
+`tol = 2e-15` the default of the method. -/
+
+/-- `np.all(np.abs(eq_i - eq_j) < tol)` over the four columns -/
+def eqClose (tol : α) (e f : V3 α × α) : Bool :=
+  decide (Scalar.abs (e.1.x - f.1.x) < tol) && decide (Scalar.abs (e.1.y - f.1.y) < tol) &&
+  decide (Scalar.abs (e.1.z - f.1.z) < tol) && decide (Scalar.abs (e.2 - f.2) < tol)
+
+/-- row `i` of `is_coplanar.nonzero()`: the indices `j` (ascending) with `eqClose eq_i eq_j` -/
+def coplanarRows (tol : α) (eqs : List (V3 α × α)) : List (List Nat) :=
+  eqs.map fun e => (eqs.zipIdx.filter fun p => eqClose tol e p.1).map (·.2)
+
+/-- `sorted(set(map(tuple, coplanar_indices)), key=lambda x: x[0])`: duplicates removed, stable sort by the
+    first index (Python's `set` order among rows with EQUAL first index is unspecified: such rows only
+    exist when the tolerance relation is not transitive on the run's equations — see `groupsPartition`). -/
+def combineSimplices (tol : α) (eqs : List (V3 α × α)) : List (List Nat) :=
+  (coplanarRows tol eqs).eraseDups.mergeSort fun a b => a.headD 0 ≤ b.headD 0
+
+/-- the face groups are a partition of `range n` (what `get_face_area`, `face_centroids` and the total
+    area silently rely on): decidable, evaluated by the driver on the implementation's `_coplanar_simplices` -/
+def groupsPartition (n : Nat) (groups : List (List Nat)) : Bool :=
+  (List.range n).isPerm groups.flatten
+
+/-- the simplices of one face group -/
+def faceSimplices (S : List (Tri α)) (g : List Nat) : List (Tri α) :=
+  g.map fun i => S.getD i ⟨V3.zero, V3.zero, V3.zero⟩
+
 end CP
